@@ -190,7 +190,8 @@ func (d declModel) coq() string {
 	return fmt.Sprintf("{| d_kind := %s; d_doc := %s; d_rawdoc := %s; d_body := %s; d_results := %s; d_src := %s |}", kind, cstr(strings.TrimSpace(d.Doc)), cstr(rawLines(d.Raw)), cstr(d.Body), cstr(d.Res), cstr(normSpace(d.Src)))
 }
 
-// rawLines: the lines of a doc comment as written, without comment markers and without empty lines.
+// rawLines: the lines of a doc comment as written, without comment markers; an empty comment line between two
+// paragraphs stays one empty line (as CommentGroup.Text() keeps it), empty lines at either end are dropped.
 func rawLines(raw string) string {
 	var out []string
 	for _, l := range strings.Split(raw, "\n") {
@@ -199,9 +200,13 @@ func rawLines(raw string) string {
 		l = strings.TrimPrefix(l, "/*")
 		l = strings.TrimSuffix(l, "*/")
 		l = strings.TrimSpace(l)
-		if l != "" {
-			out = append(out, l)
+		if l == "" && (len(out) == 0 || out[len(out)-1] == "") {
+			continue
 		}
+		out = append(out, l)
+	}
+	for len(out) > 0 && out[len(out)-1] == "" {
+		out = out[:len(out)-1]
 	}
 	return strings.Join(out, "\n")
 }
